@@ -1,0 +1,60 @@
+//go:build verif
+
+// Package verifhook re-exports internal packages for the external
+// verification harness. It is only built with the "verif" build tag.
+package verifhook
+
+import (
+	"bufio"
+	"encoding/base64"
+	"io"
+
+	"filippo.io/age/internal/bech32"
+	"filippo.io/age/internal/format"
+	"filippo.io/age/internal/stream"
+)
+
+const ChunkSize = stream.ChunkSize
+
+type (
+	Header               = format.Header
+	Stanza               = format.Stanza
+	StanzaReader         = format.StanzaReader
+	WrappedBase64Encoder = format.WrappedBase64Encoder
+	ParseError           = format.ParseError
+	StreamReader         = stream.Reader
+	StreamWriter         = stream.Writer
+)
+
+const (
+	ColumnsPerLine = format.ColumnsPerLine
+	BytesPerLine   = format.BytesPerLine
+)
+
+func NewStreamReader(key []byte, src io.Reader) (*stream.Reader, error) {
+	return stream.NewReader(key, src)
+}
+
+func NewStreamWriter(key []byte, dst io.Writer) (*stream.Writer, error) {
+	return stream.NewWriter(key, dst)
+}
+
+func ParseHeader(input io.Reader) (*format.Header, io.Reader, error) {
+	return format.Parse(input)
+}
+
+func NewStanzaReader(r *bufio.Reader) *format.StanzaReader {
+	return format.NewStanzaReader(r)
+}
+
+func NewWrappedBase64Encoder(enc *base64.Encoding, dst io.Writer) *format.WrappedBase64Encoder {
+	return format.NewWrappedBase64Encoder(enc, dst)
+}
+
+func DecodeString(s string) ([]byte, error) { return format.DecodeString(s) }
+
+func EncodeToString(b []byte) string { return format.EncodeToString(b) }
+
+func Bech32Encode(hrp string, data []byte) (string, error) { return bech32.Encode(hrp, data) }
+
+func Bech32Decode(s string) (string, []byte, error) { return bech32.Decode(s) }
